@@ -83,7 +83,9 @@ def augment(rng, spec, profile, force=None):
         feats.append("pc")
     # a circulation pump whose flow junction carries an ext grid as well (mean over both classes)
     if profile == "water" and ("circ" in force or rng.random() < 0.25) and len(cand) > 1:
-        fl = eg_j[0]
+        # flow junction with an ext grid (mean over both classes, slack mass reported by the ext grid) or WITHOUT one
+        # (pressure-fixed junction whose slack mass no table reports: it must stay ~0, C01.9)
+        fl = eg_j[0] if rng.random() < 0.5 else rng.choice(cand)
         ret = rng.choice([x for x in cand if x != fl])
         if rng.random() < 0.5:
             spec["ops"].append(["create_circ_pump_const_pressure", dict(
@@ -110,6 +112,22 @@ def augment(rng, spec, profile, force=None):
             spec["ops"].append(["create_sink", dict(junction=jn, mdot_kg_per_s=rng.choice([0.5, 1.5, 3.0, 6.0]),
                                                     index=_free_label(spec, "create_sink", 5100 + q))])
         feats.append("pumps")
+    # compressor stations (gas): leaf junction at the SAME height as the inlet, forward flow guaranteed by a sink;
+    # different ratios, out-of-service units possibly in front
+    if profile == "gas" and ("compressors" in force or rng.random() < 0.3) and cand:
+        hof = {kw["index"]: kw.get("height_m", 0.) for kw in _junction_ops(spec)}
+        k = rng.randint(1, 3)
+        ratios = rng.sample([1.05, 1.2, 1.5, 1.8], k)
+        for q in range(k):
+            a = rng.choice(cand)
+            jn = _free_label(spec, "create_junction", 820000 + 10 * q)
+            spec["ops"].append(["create_junction", dict(pn_bar=p0, tfluid_k=t0, height_m=hof.get(a, 0.), index=jn)])
+            ins = not (q == 0 and k > 1 and rng.random() < 0.5)
+            spec["ops"].append(["create_compressor", dict(from_junction=a, to_junction=jn, pressure_ratio=ratios[q],
+                                                          in_service=ins, index=_free_label(spec, "create_compressor", rng.choice([0, 30]) + (k - q)))])
+            spec["ops"].append(["create_sink", dict(junction=jn, mdot_kg_per_s=rng.choice([0.005, 0.02, 0.05]),
+                                                    index=_free_label(spec, "create_sink", 5200 + q))])
+        feats.append("compressors")
     # stand-by pressure controllers: same branch and controlled junction as an existing one, other flags / set-point
     pcs = [kw for fn, kw in spec["ops"] if fn == "create_pressure_control"]
     if pcs and ("standby" in force or rng.random() < 0.6):
@@ -123,7 +141,42 @@ def augment(rng, spec, profile, force=None):
         spec["ops"].insert(pos + (1 if rng.random() < 0.6 else 0), ["create_pressure_control", sb])
         feats.append("standby_pc")
     spec["features"] = feats
-    return shadow(rng, spec)
+    return shadow(rng, altitude(rng, spec))
+
+
+def altitude(rng, spec, force=False):
+    """the whole network at an altitude well away from 0 (ambient pressure != NORMAL_PRESSURE everywhere;
+    height differences are kept): every clause on absolute pressures must use p_amb(height)"""
+    h0 = rng.choice([0., 0., 400., 1200., 2500., -150.])
+    if force and h0 == 0.:
+        h0 = 1200.
+    if h0:
+        for kw in _junction_ops(spec):
+            kw["height_m"] = kw.get("height_m", 0.) + h0
+        spec["features"] = list(spec.get("features", [])) + ["altitude"]
+    return spec
+
+
+def leaks(rng, spec):
+    """heating loop (circulation pump, no ext grid on its flow junction) with withdrawals / injections, optionally a
+    further ext grid somewhere else.  By the property the result - if one is returned - balances at every junction incl.
+    the pump's flow junction (whose slack mass no table reports); PipeflowNotConverged is the other legal outcome."""
+    r = rng.random()
+    if r < 0.45:
+        return spec
+    js = [kw["index"] for kw in _junction_ops(spec)]
+    p0 = _junction_ops(spec)[0]["pn_bar"]
+    for q in range(rng.randint(1, 2)):
+        fn = rng.choice(["create_sink", "create_sink", "create_source"])
+        spec["ops"].append([fn, dict(junction=rng.choice(js), mdot_kg_per_s=rng.choice([0.05, 0.1, 0.3]),
+                                     scaling=rng.choice([1., 2.]), index=_free_label(spec, fn, 5300 + q))])
+    if rng.random() < 0.5:
+        pumps = [kw["flow_junction"] for f, kw in spec["ops"] if f.startswith("create_circ_pump")]
+        oth = [j for j in js if j not in pumps]
+        spec["ops"].append(["create_ext_grid", dict(junction=rng.choice(oth), p_bar=p0 * rng.choice([0.8, 0.9]), t_k=350.,
+                                                    type=rng.choice(["p", "pt"]), index=_free_label(spec, "create_ext_grid", 7100))])
+    spec["features"] = list(spec.get("features", [])) + ["leaks"]
+    return spec
 
 
 SHADOW = {   # table create function -> (set-point keys that get a different value in the shadow row)
@@ -218,7 +271,7 @@ def _main_component(spec):
 def gen_spec(rng, profiles=("water", "gas"), size=None, force=None):
     profile = rng.choice(list(profiles))
     if profile == "heat":
-        return shadow(rng, gen.gen_net(rng, "heat", size=size)), profile
+        return shadow(rng, altitude(rng, leaks(rng, gen.gen_net(rng, "heat", size=size)))), profile
     spec = gen.gen_net(rng, profile, size=size)
     return augment(rng, spec, profile, force), profile
 
